@@ -2,12 +2,12 @@ package main
 
 // C18 — the IDL audit flags every breaking change and nothing else.
 //
-// Suite "c18": random well-formed program, k ∈ 0..3 random edits from the documented
-// catalogue (compatible and breaking, at random applicable sites, one edit per declaration),
+// Suite "c18": random well-formed program, k ∈ 0..3 random a18Edits from the documented
+// catalogue (compatible and breaking, at random applicable sites, one a18Edit per declaration),
 // both programs rendered to IDL text, audited by the REAL parser.Auditor with a recording
 // logger, and sent (as re-parsed by the real parser) to the Lean model.
-// Oracle (the property, independent of the model): the harness knows which edits it applied:
-//   no breaking edit  ⇒ the audit must pass,    ≥ 1 breaking edit ⇒ the audit must fail.
+// Oracle (the property, independent of the model): the harness knows which a18Edits it a18Applied:
+//   no breaking a18Edit  ⇒ the audit must pass,    ≥ 1 breaking a18Edit ⇒ the audit must fail.
 //
 // Driver line:  aud - OLD NEW EXPECT      (EXPECT: pass | fail | any; ignored by the model)
 // Output:       pass|fail <sorted finding kinds> spec=0|1
@@ -24,13 +24,13 @@ import (
 
 // ---------- the real auditor ----------
 
-type recLogger struct {
+type a18RecLogger struct {
 	kinds  []string
 	errors []string
 	nerr   int
 }
 
-func classify(msg string, warn bool) string {
+func a18Classify(msg string, warn bool) string {
 	p := "E:"
 	if warn {
 		p = "W:"
@@ -89,29 +89,29 @@ func classify(msg string, warn bool) string {
 	return p + "unknown"
 }
 
-func (l *recLogger) LogWarning(pieces ...string) {
-	l.kinds = append(l.kinds, classify(strings.Join(pieces, " "), true))
+func (l *a18RecLogger) LogWarning(pieces ...string) {
+	l.kinds = append(l.kinds, a18Classify(strings.Join(pieces, " "), true))
 }
-func (l *recLogger) LogError(pieces ...string) {
+func (l *a18RecLogger) LogError(pieces ...string) {
 	l.nerr++
 	m := strings.Join(pieces, " ")
 	l.errors = append(l.errors, m)
-	l.kinds = append(l.kinds, classify(m, false))
+	l.kinds = append(l.kinds, a18Classify(m, false))
 }
-func (l *recLogger) ErrorsLogged() bool { return l.nerr > 0 }
+func (l *a18RecLogger) ErrorsLogged() bool { return l.nerr > 0 }
 
-type auditOut struct {
+type a18AuditOut struct {
 	parseErr string
 	failed   bool
 	kinds    []string
 	errors   []string
-	oldP     *gProg // as parsed by the real parser
-	newP     *gProg
+	oldP     *a18GProg // as parsed by the real parser
+	newP     *a18GProg
 }
 
-// realAudit writes both programs to a scratch directory, runs the real auditor and
+// a18RealAudit writes both programs to a scratch directory, runs the real auditor and
 // re-parses both files to obtain the ASTs the auditor saw.
-func realAudit(oldText, newText string) (res auditOut) {
+func a18RealAudit(oldText, newText string) (res a18AuditOut) {
 	dir, err := os.MkdirTemp("", "verif-c18-")
 	if err != nil {
 		res.parseErr = "mkdtemp: " + err.Error()
@@ -137,8 +137,8 @@ func realAudit(oldText, newText string) (res auditOut) {
 		res.parseErr = "new: " + err.Error()
 		return
 	}
-	res.oldP, res.newP = progOfReal(of), progOfReal(nf)
-	lg := &recLogger{}
+	res.oldP, res.newP = a18ProgOfReal(of), a18ProgOfReal(nf)
+	lg := &a18RecLogger{}
 	var aerr error
 	if o := guard(10e9, func() { aerr = parser.NewAuditorWithLogger(lg).Audit(op, np) }); o != "" {
 		res.parseErr = "audit " + o
@@ -153,7 +153,7 @@ func realAudit(oldText, newText string) (res auditOut) {
 	return
 }
 
-func (a auditOut) canonical() string {
+func (a a18AuditOut) canonical() string {
 	if a.parseErr != "" {
 		return "parse-error"
 	}
@@ -161,29 +161,29 @@ func (a auditOut) canonical() string {
 	if a.failed {
 		v, s = "fail", "1"
 	}
-	return v + " " + sortedKinds(a.kinds) + " spec=" + s
+	return v + " " + a18SortedKinds(a.kinds) + " spec=" + s
 }
 
 // ---------- generator ----------
 
-type gen struct {
+type a18Gen struct {
 	r       *Rng
-	p       *gProg
+	p       *a18GProg
 	counter int
 }
 
-func (g *gen) fresh(prefix string) string {
+func (g *a18Gen) fresh(prefix string) string {
 	g.counter++
 	return prefix + strconv.Itoa(g.counter)
 }
 
-var fieldWords = []string{"alpha", "gamma", "total", "count", "name", "kind", "flag", "payload", "when", "user", "amount", "tag", "zone", "page", "extra"}
-var litWords = []string{"foo", "bar", "v1", "events", "qux", "a-b", "x_y", "prod", "eu"}
-var varWords = []string{"user", "tenant", "region", "env", "shard", "id2"}
+var a18FieldWords = []string{"alpha", "gamma", "total", "count", "name", "kind", "flag", "payload", "when", "user", "amount", "tag", "zone", "page", "extra"}
+var a18LitWords = []string{"foo", "bar", "v1", "events", "qux", "a-b", "x_y", "prod", "eu"}
+var a18VarWords = []string{"user", "tenant", "region", "env", "shard", "id2"}
 
-func (g *gen) fieldName(used map[string]bool) string {
+func (g *a18Gen) fieldName(used map[string]bool) string {
 	for i := 0; ; i++ {
-		n := fieldWords[g.r.Intn(len(fieldWords))]
+		n := a18FieldWords[g.r.Intn(len(a18FieldWords))]
 		if i > 3 {
 			n += strconv.Itoa(g.r.Intn(1000))
 		}
@@ -195,7 +195,7 @@ func (g *gen) fieldName(used map[string]bool) string {
 }
 
 // namedPool: names usable as a field type.
-func (g *gen) namedPool(p *gProg, upToTypedef int, excs bool) []string {
+func (g *a18Gen) namedPool(p *a18GProg, upToTypedef int, excs bool) []string {
 	var out []string
 	for _, s := range p.structs {
 		if s.kind != 'x' || excs {
@@ -213,29 +213,29 @@ func (g *gen) namedPool(p *gProg, upToTypedef int, excs bool) []string {
 	return out
 }
 
-func (g *gen) ty(p *gProg, depth int, upToTypedef int) *gTy {
+func (g *a18Gen) ty(p *a18GProg, depth int, upToTypedef int) *a18GTy {
 	r := g.r
 	c := r.Intn(100)
 	pool := g.namedPool(p, upToTypedef, r.Chance(10))
 	switch {
 	case depth >= 5 || c < 34:
-		return &gTy{kind: tyBase, name: baseNames[r.Intn(len(baseNames))]}
+		return &a18GTy{kind: a18TyBase, name: a18BaseNames[r.Intn(len(a18BaseNames))]}
 	case c < 58 && len(pool) > 0:
-		return &gTy{kind: tyNamed, name: pool[r.Intn(len(pool))]}
+		return &a18GTy{kind: a18TyNamed, name: pool[r.Intn(len(pool))]}
 	case c < 74:
-		return &gTy{kind: tyList, name: "list", v: g.ty(p, depth+1, upToTypedef)}
+		return &a18GTy{kind: a18TyList, name: "list", v: g.ty(p, depth+1, upToTypedef)}
 	case c < 85:
-		return &gTy{kind: tySet, name: "set", v: g.ty(p, depth+1, upToTypedef)}
+		return &a18GTy{kind: a18TySet, name: "set", v: g.ty(p, depth+1, upToTypedef)}
 	case c < 100:
-		return &gTy{kind: tyMap, name: "map", k: g.ty(p, depth+1, upToTypedef), v: g.ty(p, depth+1, upToTypedef)}
+		return &a18GTy{kind: a18TyMap, name: "map", k: g.ty(p, depth+1, upToTypedef), v: g.ty(p, depth+1, upToTypedef)}
 	}
-	return &gTy{kind: tyBase, name: "i32"}
+	return &a18GTy{kind: a18TyBase, name: "i32"}
 }
 
-func (g *gen) fields(p *gProg, n int, mods string, lowIDs bool) []*gField {
+func (g *a18Gen) fields(p *a18GProg, n int, mods string, lowIDs bool) []*a18GField {
 	used := map[string]bool{}
 	ids := map[int]bool{}
-	var out []*gField
+	var out []*a18GField
 	for i := 0; i < n; i++ {
 		id := 1 + g.r.Intn(14)
 		if lowIDs {
@@ -245,8 +245,8 @@ func (g *gen) fields(p *gProg, n int, mods string, lowIDs bool) []*gField {
 			id++
 		}
 		ids[id] = true
-		f := &gField{id: id, mod: mods[g.r.Intn(len(mods))], name: g.fieldName(used), ty: g.ty(p, 0, -1), dflt: "-"}
-		if f.ty.kind == tyBase && (f.ty.name == "i32" || f.ty.name == "i64") && f.mod != 'r' && g.r.Chance(25) {
+		f := &a18GField{id: id, mod: mods[g.r.Intn(len(mods))], name: g.fieldName(used), ty: g.ty(p, 0, -1), dflt: "-"}
+		if f.ty.kind == a18TyBase && (f.ty.name == "i32" || f.ty.name == "i64") && f.mod != 'r' && g.r.Chance(25) {
 			f.dflt = strconv.Itoa(g.r.Intn(50))
 		}
 		out = append(out, f)
@@ -254,7 +254,7 @@ func (g *gen) fields(p *gProg, n int, mods string, lowIDs bool) []*gField {
 	return out
 }
 
-func (g *gen) excFields(p *gProg, n int) []*gField {
+func (g *a18Gen) excFields(p *a18GProg, n int) []*a18GField {
 	var xs []string
 	for _, s := range p.structs {
 		if s.kind == 'x' {
@@ -265,9 +265,9 @@ func (g *gen) excFields(p *gProg, n int) []*gField {
 		return nil
 	}
 	used := map[string]bool{}
-	var out []*gField
+	var out []*a18GField
 	for i := 0; i < n; i++ {
-		out = append(out, &gField{id: i + 1 + g.r.Intn(2)*i, mod: 'o', name: g.fieldName(used), ty: &gTy{kind: tyNamed, name: xs[g.r.Intn(len(xs))]}, dflt: "-"})
+		out = append(out, &a18GField{id: i + 1 + g.r.Intn(2)*i, mod: 'o', name: g.fieldName(used), ty: &a18GTy{kind: a18TyNamed, name: xs[g.r.Intn(len(xs))]}, dflt: "-"})
 	}
 	// ids distinct
 	seen := map[int]bool{}
@@ -280,9 +280,9 @@ func (g *gen) excFields(p *gProg, n int) []*gField {
 	return out
 }
 
-func (g *gen) method(p *gProg, name string) *gMethod {
+func (g *a18Gen) method(p *a18GProg, name string) *a18GMethod {
 	r := g.r
-	m := &gMethod{name: name}
+	m := &a18GMethod{name: name}
 	if r.Chance(15) {
 		m.oneway = true
 	} else {
@@ -297,55 +297,55 @@ func (g *gen) method(p *gProg, name string) *gMethod {
 	return m
 }
 
-func (g *gen) prefix() []gPTok {
-	var out []gPTok
+func (g *a18Gen) prefix() []a18GPTok {
+	var out []a18GPTok
 	used := map[string]bool{}
 	for i, n := 0, g.r.Intn(5); i < n; i++ {
 		if g.r.Chance(40) {
-			v := varWords[g.r.Intn(len(varWords))]
+			v := a18VarWords[g.r.Intn(len(a18VarWords))]
 			if used[v] {
 				continue
 			}
 			used[v] = true
-			out = append(out, gPTok{true, v})
+			out = append(out, a18GPTok{true, v})
 		} else {
-			out = append(out, gPTok{false, litWords[g.r.Intn(len(litWords))]})
+			out = append(out, a18GPTok{false, a18LitWords[g.r.Intn(len(a18LitWords))]})
 		}
 	}
 	return out
 }
 
-func genProg(r *Rng) *gProg {
-	g := &gen{r: r, p: &gProg{}}
+func a18GenProg(r *Rng) *a18GProg {
+	g := &a18Gen{r: r, p: &a18GProg{}}
 	p := g.p
 	for i, n := 0, r.Intn(4); i < n; i++ {
-		e := &gEnum{name: g.fresh("En")}
+		e := &a18GEnum{name: g.fresh("En")}
 		num := r.Intn(3)
 		for j, k := 0, 1+r.Intn(4); j < k; j++ {
-			e.vals = append(e.vals, gEV{g.fresh("VAL"), num})
+			e.vals = append(e.vals, a18GEV{g.fresh("VAL"), num})
 			num += 1 + r.Intn(3)
 		}
 		p.enums = append(p.enums, e)
 	}
 	// declare struct-like names first so that field types may refer to any of them
 	for i, n := 0, 1+r.Intn(4); i < n; i++ {
-		p.structs = append(p.structs, &gStruct{kind: 's', name: g.fresh("St")})
+		p.structs = append(p.structs, &a18GStruct{kind: 's', name: g.fresh("St")})
 	}
 	for i, n := 0, r.Intn(3); i < n; i++ {
-		p.structs = append(p.structs, &gStruct{kind: 'u', name: g.fresh("Un")})
+		p.structs = append(p.structs, &a18GStruct{kind: 'u', name: g.fresh("Un")})
 	}
 	for i, n := 0, r.Intn(3); i < n; i++ {
-		p.structs = append(p.structs, &gStruct{kind: 'x', name: g.fresh("Ex")})
+		p.structs = append(p.structs, &a18GStruct{kind: 'x', name: g.fresh("Ex")})
 	}
 	for i, n := 0, r.Intn(5); i < n; i++ {
-		p.typedefs = append(p.typedefs, &gTypedef{g.fresh("Td"), g.ty(p, 0, i)})
+		p.typedefs = append(p.typedefs, &a18GTypedef{g.fresh("Td"), g.ty(p, 0, i)})
 	}
 	for _, s := range p.structs {
 		mods := "ddroo"
 		s.fields = g.fields(p, r.Intn(6), mods, r.Chance(10))
 	}
 	for i, n := 0, r.Intn(4); i < n; i++ {
-		s := &gService{name: g.fresh("Sv")}
+		s := &a18GService{name: g.fresh("Sv")}
 		if i > 0 && r.Chance(40) {
 			s.ext = p.services[r.Intn(i)].name
 		}
@@ -355,57 +355,57 @@ func genProg(r *Rng) *gProg {
 		p.services = append(p.services, s)
 	}
 	for i, n := 0, r.Intn(3); i < n; i++ {
-		s := &gScope{name: g.fresh("Sc"), prefix: g.prefix()}
+		s := &a18GScope{name: g.fresh("Sc"), prefix: g.prefix()}
 		for j, k := 0, r.Intn(4); j < k; j++ {
-			s.ops = append(s.ops, &gOp{g.fresh("Op"), g.ty(p, 0, -1)})
+			s.ops = append(s.ops, &a18GOp{g.fresh("Op"), g.ty(p, 0, -1)})
 		}
 		p.scopes = append(p.scopes, s)
 	}
 	langs := []string{"go", "java", "py", "dart"}
 	for i, n := 0, r.Intn(3); i < n; i++ {
-		p.nss = append(p.nss, &gNS{langs[i], "pkg" + strconv.Itoa(r.Intn(5))})
+		p.nss = append(p.nss, &a18GNS{langs[i], "pkg" + strconv.Itoa(r.Intn(5))})
 	}
 	for i, n := 0, r.Intn(3); i < n; i++ {
 		if r.Bool() {
-			p.consts = append(p.consts, &gConst{g.fresh("CK"), &gTy{kind: tyBase, name: "i32"}, strconv.Itoa(r.Intn(100))})
+			p.consts = append(p.consts, &a18GConst{g.fresh("CK"), &a18GTy{kind: a18TyBase, name: "i32"}, strconv.Itoa(r.Intn(100))})
 		} else {
-			p.consts = append(p.consts, &gConst{g.fresh("CK"), &gTy{kind: tyBase, name: "string"}, strTok(litWords[r.Intn(len(litWords))])})
+			p.consts = append(p.consts, &a18GConst{g.fresh("CK"), &a18GTy{kind: a18TyBase, name: "string"}, a18StrTok(a18LitWords[r.Intn(len(a18LitWords))])})
 		}
 	}
 	return p
 }
 
-// ---------- edits ----------
+// ---------- a18Edits ----------
 
-type applied struct {
+type a18Applied struct {
 	kind     string
 	breaking bool
 	site     string
 	depth    int
 }
 
-type editor struct {
-	g       *gen
+type a18Editor struct {
+	g       *a18Gen
 	r       *Rng
-	old     *gProg
-	nw      *gProg
+	old     *a18GProg
+	nw      *a18GProg
 	touched map[string]bool
-	log     []applied
+	log     []a18Applied
 	tdEdits int
 }
 
-func (e *editor) rec(kind string, breaking bool, site string, depth int, decls ...string) bool {
+func (e *a18Editor) rec(kind string, breaking bool, site string, depth int, decls ...string) bool {
 	for _, d := range decls {
 		e.touched[d] = true
 	}
-	e.log = append(e.log, applied{kind, breaking, site, depth})
+	e.log = append(e.log, a18Applied{kind, breaking, site, depth})
 	return true
 }
 
 // untouched struct-likes / services / methods / scopes / enums of the new program (all of
 // them also exist, identical, in the old program)
-func (e *editor) pickStruct(ok func(*gStruct) bool) *gStruct {
-	var c []*gStruct
+func (e *a18Editor) pickStruct(ok func(*a18GStruct) bool) *a18GStruct {
+	var c []*a18GStruct
 	for _, s := range e.nw.structs {
 		if !e.touched["struct:"+s.name] && e.inOld("struct:"+s.name) && (ok == nil || ok(s)) {
 			c = append(c, s)
@@ -417,7 +417,7 @@ func (e *editor) pickStruct(ok func(*gStruct) bool) *gStruct {
 	return c[e.r.Intn(len(c))]
 }
 
-func (e *editor) inOld(key string) bool {
+func (e *a18Editor) inOld(key string) bool {
 	i := strings.IndexByte(key, ':')
 	kind, name := key[:i], key[i+1:]
 	switch kind {
@@ -468,13 +468,13 @@ func (e *editor) inOld(key string) bool {
 	return false
 }
 
-type methodSite struct {
-	s *gService
-	m *gMethod
+type a18MethodSite struct {
+	s *a18GService
+	m *a18GMethod
 }
 
-func (e *editor) pickMethod(ok func(*gMethod) bool) *methodSite {
-	var c []methodSite
+func (e *a18Editor) pickMethod(ok func(*a18GMethod) bool) *a18MethodSite {
+	var c []a18MethodSite
 	for _, s := range e.nw.services {
 		if e.touched["svc:"+s.name] || !e.inOld("svc:"+s.name) {
 			continue
@@ -482,7 +482,7 @@ func (e *editor) pickMethod(ok func(*gMethod) bool) *methodSite {
 		for _, m := range s.methods {
 			k := "method:" + s.name + "." + m.name
 			if !e.touched[k] && e.inOld(k) && (ok == nil || ok(m)) {
-				c = append(c, methodSite{s, m})
+				c = append(c, a18MethodSite{s, m})
 			}
 		}
 	}
@@ -492,8 +492,8 @@ func (e *editor) pickMethod(ok func(*gMethod) bool) *methodSite {
 	return &c[e.r.Intn(len(c))]
 }
 
-func (e *editor) pickService(ok func(*gService) bool) *gService {
-	var c []*gService
+func (e *a18Editor) pickService(ok func(*a18GService) bool) *a18GService {
+	var c []*a18GService
 	for _, s := range e.nw.services {
 		if e.touched["svc:"+s.name] || !e.inOld("svc:"+s.name) || (ok != nil && !ok(s)) {
 			continue
@@ -506,7 +506,7 @@ func (e *editor) pickService(ok func(*gService) bool) *gService {
 	return c[e.r.Intn(len(c))]
 }
 
-func (e *editor) serviceFullyUntouched(s *gService) bool {
+func (e *a18Editor) serviceFullyUntouched(s *a18GService) bool {
 	for _, m := range s.methods {
 		if e.touched["method:"+s.name+"."+m.name] {
 			return false
@@ -515,8 +515,8 @@ func (e *editor) serviceFullyUntouched(s *gService) bool {
 	return true
 }
 
-func (e *editor) pickScope(ok func(*gScope) bool) *gScope {
-	var c []*gScope
+func (e *a18Editor) pickScope(ok func(*a18GScope) bool) *a18GScope {
+	var c []*a18GScope
 	for _, s := range e.nw.scopes {
 		if !e.touched["scope:"+s.name] && e.inOld("scope:"+s.name) && (ok == nil || ok(s)) {
 			c = append(c, s)
@@ -528,8 +528,8 @@ func (e *editor) pickScope(ok func(*gScope) bool) *gScope {
 	return c[e.r.Intn(len(c))]
 }
 
-func (e *editor) pickEnum(ok func(*gEnum) bool) *gEnum {
-	var c []*gEnum
+func (e *a18Editor) pickEnum(ok func(*a18GEnum) bool) *a18GEnum {
+	var c []*a18GEnum
 	for _, s := range e.nw.enums {
 		if !e.touched["enum:"+s.name] && e.inOld("enum:"+s.name) && (ok == nil || ok(s)) {
 			c = append(c, s)
@@ -542,19 +542,19 @@ func (e *editor) pickEnum(ok func(*gEnum) bool) *gEnum {
 }
 
 // a field list that the auditor checks with checkFields, with its declaration key
-type fieldSite struct {
+type a18FieldSite struct {
 	decl   string
 	what   string // struct | union | exception | args | throws
-	fields *[]*gField
+	fields *[]*a18GField
 }
 
-func (e *editor) pickFieldList(whats string, ok func(fieldSite) bool) *fieldSite {
-	var c []fieldSite
+func (e *a18Editor) pickFieldList(whats string, ok func(a18FieldSite) bool) *a18FieldSite {
+	var c []a18FieldSite
 	for _, s := range e.nw.structs {
 		k := "struct:" + s.name
 		w := map[byte]string{'s': "struct", 'u': "union", 'x': "exception"}[s.kind]
 		if !e.touched[k] && e.inOld(k) && strings.Contains(whats, w) {
-			c = append(c, fieldSite{k, w, &s.fields})
+			c = append(c, a18FieldSite{k, w, &s.fields})
 		}
 	}
 	for _, s := range e.nw.services {
@@ -567,14 +567,14 @@ func (e *editor) pickFieldList(whats string, ok func(fieldSite) bool) *fieldSite
 				continue
 			}
 			if strings.Contains(whats, "args") {
-				c = append(c, fieldSite{k, "args", &m.args})
+				c = append(c, a18FieldSite{k, "args", &m.args})
 			}
 			if strings.Contains(whats, "throws") {
-				c = append(c, fieldSite{k, "throws", &m.excs})
+				c = append(c, a18FieldSite{k, "throws", &m.excs})
 			}
 		}
 	}
-	var d []fieldSite
+	var d []a18FieldSite
 	for _, s := range c {
 		if ok == nil || ok(s) {
 			d = append(d, s)
@@ -586,7 +586,7 @@ func (e *editor) pickFieldList(whats string, ok func(fieldSite) bool) *fieldSite
 	return &d[e.r.Intn(len(d))]
 }
 
-func freshID(fs []*gField, r *Rng, middle bool) int {
+func a18FreshID(fs []*a18GField, r *Rng, middle bool) int {
 	used := map[int]bool{}
 	lo, hi := 1<<30, -(1 << 30)
 	for _, f := range fs {
@@ -611,7 +611,7 @@ func freshID(fs []*gField, r *Rng, middle bool) int {
 	return hi + 1 + r.Intn(3)
 }
 
-func fieldNames(fs []*gField) map[string]bool {
+func a18FieldNames(fs []*a18GField) map[string]bool {
 	m := map[string]bool{}
 	for _, f := range fs {
 		m[f.name] = true
@@ -619,25 +619,25 @@ func fieldNames(fs []*gField) map[string]bool {
 	return m
 }
 
-// type positions inside a type tree
-type tyPos struct {
-	at    **gTy
+// type a18Positions inside a type tree
+type a18TyPos struct {
+	at    **a18GTy
 	depth int
 }
 
-func positions(at **gTy, depth int, out *[]tyPos) {
-	*out = append(*out, tyPos{at, depth})
+func a18Positions(at **a18GTy, depth int, out *[]a18TyPos) {
+	*out = append(*out, a18TyPos{at, depth})
 	t := *at
 	switch t.kind {
-	case tyList, tySet:
-		positions(&t.v, depth+1, out)
-	case tyMap:
-		positions(&t.k, depth+1, out)
-		positions(&t.v, depth+1, out)
+	case a18TyList, a18TySet:
+		a18Positions(&t.v, depth+1, out)
+	case a18TyMap:
+		a18Positions(&t.k, depth+1, out)
+		a18Positions(&t.v, depth+1, out)
 	}
 }
 
-func (e *editor) declTouched(k string) bool {
+func (e *a18Editor) declTouched(k string) bool {
 	if strings.HasPrefix(k, "method:") {
 		svc := k[len("method:"):strings.IndexByte(k, '.')]
 		if e.touched["svc:"+svc] || !e.inOld("svc:"+svc) {
@@ -647,8 +647,8 @@ func (e *editor) declTouched(k string) bool {
 	return e.touched[k] || !e.inOld(k)
 }
 
-func (e *editor) checkedSlots() []slot {
-	var out []slot
+func (e *a18Editor) checkedSlots() []a18Slot {
+	var out []a18Slot
 	for _, s := range e.nw.slots(false) {
 		if !e.declTouched(s.decl) {
 			out = append(out, s)
@@ -657,17 +657,17 @@ func (e *editor) checkedSlots() []slot {
 	return out
 }
 
-// retype: replace the subtree at a random position of a checked slot by a type that resolves differently
-func (e *editor) retype() bool {
+// retype: replace the subtree at a random position of a checked a18Slot by a type that resolves differently
+func (e *a18Editor) retype() bool {
 	ss := e.checkedSlots()
 	if len(ss) == 0 {
 		return false
 	}
 	s := ss[e.r.Intn(len(ss))]
 	before := e.nw.canon(*s.ty)
-	var ps []tyPos
-	positions(s.ty, 0, &ps)
-	// prefer deep positions a little
+	var ps []a18TyPos
+	a18Positions(s.ty, 0, &ps)
+	// prefer deep a18Positions a little
 	pos := ps[e.r.Intn(len(ps))]
 	if e.r.Bool() {
 		pos = ps[len(ps)-1-e.r.Intn((len(ps)+1)/2)]
@@ -676,7 +676,7 @@ func (e *editor) retype() bool {
 	for try := 0; try < 12; try++ {
 		*pos.at = e.g.ty(e.nw, 3, -1)
 		if try > 6 {
-			*pos.at = &gTy{kind: tyBase, name: baseNames[e.r.Intn(len(baseNames))]}
+			*pos.at = &a18GTy{kind: a18TyBase, name: a18BaseNames[e.r.Intn(len(a18BaseNames))]}
 		}
 		if e.nw.canon(*s.ty) != before {
 			return e.rec("retype-"+s.what, true, s.decl, pos.depth, s.decl)
@@ -687,7 +687,7 @@ func (e *editor) retype() bool {
 }
 
 // aliasSwap: replace a subtree by an equivalent spelling (typedef name for its expansion or back)
-func (e *editor) aliasSwap() bool {
+func (e *a18Editor) aliasSwap() bool {
 	ss := e.checkedSlots()
 	if len(ss) == 0 {
 		return false
@@ -695,18 +695,18 @@ func (e *editor) aliasSwap() bool {
 	for try := 0; try < 8; try++ {
 		s := ss[e.r.Intn(len(ss))]
 		before := e.nw.canon(*s.ty)
-		var ps []tyPos
-		positions(s.ty, 0, &ps)
+		var ps []a18TyPos
+		a18Positions(s.ty, 0, &ps)
 		pos := ps[e.r.Intn(len(ps))]
 		saved := *pos.at
 		sub := e.nw.canon(saved)
-		var cands []*gTy
+		var cands []*a18GTy
 		for _, td := range e.nw.typedefs {
-			if e.nw.canon(td.ty) == sub && !(saved.kind == tyNamed && saved.name == td.name) {
-				cands = append(cands, &gTy{kind: tyNamed, name: td.name})
+			if e.nw.canon(td.ty) == sub && !(saved.kind == a18TyNamed && saved.name == td.name) {
+				cands = append(cands, &a18GTy{kind: a18TyNamed, name: td.name})
 			}
 		}
-		if saved.kind == tyNamed {
+		if saved.kind == a18TyNamed {
 			if td := e.nw.typedef(saved.name); td != nil {
 				cands = append(cands, td.ty.clone())
 			}
@@ -723,8 +723,8 @@ func (e *editor) aliasSwap() bool {
 	return false
 }
 
-// typedefBody: change the body of a typedef. Breaking iff some untouched checked slot reaches it.
-func (e *editor) typedefBody() bool {
+// typedefBody: change the body of a typedef. Breaking iff some untouched checked a18Slot reaches it.
+func (e *a18Editor) typedefBody() bool {
 	if e.tdEdits > 0 || len(e.nw.typedefs) == 0 {
 		return false
 	}
@@ -733,7 +733,7 @@ func (e *editor) typedefBody() bool {
 	if e.touched["typedef:"+td.name] || !e.inOld("typedef:"+td.name) {
 		return false
 	}
-	var users []slot
+	var users []a18Slot
 	anyUser := false
 	for _, s := range e.nw.slots(false) {
 		if e.nw.reaches(*s.ty, td.name, 0) {
@@ -752,12 +752,12 @@ func (e *editor) typedefBody() bool {
 		// new body: only earlier typedefs may be mentioned (keeps the typedef graph acyclic)
 		td.ty = e.g.ty(e.nw, 2, idx)
 		if try > 6 {
-			td.ty = &gTy{kind: tyBase, name: baseNames[e.r.Intn(len(baseNames))]}
+			td.ty = &a18GTy{kind: a18TyBase, name: a18BaseNames[e.r.Intn(len(a18BaseNames))]}
 		}
 		if e.nw.canon(td.ty) != before {
 			e.tdEdits++
 			decls := []string{"typedef:" + td.name}
-			// every typedef on a path to it and every declaration with a slot reaching it is now "edited"
+			// every typedef on a path to it and every declaration with a a18Slot reaching it is now "edited"
 			for _, o := range e.nw.typedefs {
 				if e.nw.reaches(o.ty, td.name, 0) {
 					decls = append(decls, "typedef:"+o.name)
@@ -780,7 +780,7 @@ func (e *editor) typedefBody() bool {
 	return false
 }
 
-func (e *editor) referenced(name string) (decls []string) {
+func (e *a18Editor) referenced(name string) (decls []string) {
 	for _, s := range e.nw.slots(true) {
 		if (*s.ty).mentions(name) {
 			decls = append(decls, s.decl)
@@ -789,23 +789,23 @@ func (e *editor) referenced(name string) (decls []string) {
 	return
 }
 
-type edit struct {
+type a18Edit struct {
 	name string
-	f    func(e *editor) bool
+	f    func(e *a18Editor) bool
 }
 
-var edits []edit
+var a18Edits []a18Edit
 
 func init() {
-	add := func(name string, f func(e *editor) bool) { edits = append(edits, edit{name, f}) }
+	add := func(name string, f func(e *a18Editor) bool) { a18Edits = append(a18Edits, a18Edit{name, f}) }
 
 	// ----- breaking -----
-	add("retype", func(e *editor) bool { return e.retype() })
-	add("retype", func(e *editor) bool { return e.retype() })
-	add("retype", func(e *editor) bool { return e.retype() })
-	add("typedef-body", func(e *editor) bool { return e.typedefBody() })
-	add("typedef-body", func(e *editor) bool { return e.typedefBody() })
-	add("struct-remove", func(e *editor) bool {
+	add("retype", func(e *a18Editor) bool { return e.retype() })
+	add("retype", func(e *a18Editor) bool { return e.retype() })
+	add("retype", func(e *a18Editor) bool { return e.retype() })
+	add("typedef-body", func(e *a18Editor) bool { return e.typedefBody() })
+	add("typedef-body", func(e *a18Editor) bool { return e.typedefBody() })
+	add("struct-remove", func(e *a18Editor) bool {
 		s := e.pickStruct(nil)
 		if s == nil {
 			return false
@@ -832,11 +832,11 @@ func init() {
 		}
 		old := s.name
 		s.name = to
-		e.tdEdits++ // typedef bodies may have changed spelling: no further typedef edits
+		e.tdEdits++ // typedef bodies may have changed spelling: no further typedef a18Edits
 		return e.rec(kind+"-rename", true, "struct:"+old, 0, append(refs, "struct:"+old, "struct:"+to)...)
 	})
-	add("field-required-flip", func(e *editor) bool {
-		fs := e.pickFieldList("struct exception args", func(s fieldSite) bool { return len(*s.fields) > 0 })
+	add("field-required-flip", func(e *a18Editor) bool {
+		fs := e.pickFieldList("struct exception args", func(s a18FieldSite) bool { return len(*s.fields) > 0 })
 		if fs == nil {
 			return false
 		}
@@ -848,8 +848,8 @@ func init() {
 		}
 		return e.rec("required-flip-"+fs.what, true, fs.decl, 0, fs.decl)
 	})
-	add("field-remove", func(e *editor) bool {
-		fs := e.pickFieldList("struct union exception args throws", func(s fieldSite) bool { return len(*s.fields) > 0 })
+	add("field-remove", func(e *a18Editor) bool {
+		fs := e.pickFieldList("struct union exception args throws", func(s a18FieldSite) bool { return len(*s.fields) > 0 })
 		if fs == nil {
 			return false
 		}
@@ -857,7 +857,7 @@ func init() {
 		f := (*fs.fields)[i]
 		if fs.what == "throws" {
 			// the void-method rule decides
-			var m *gMethod
+			var m *a18GMethod
 			for _, s := range e.nw.services {
 				for _, x := range s.methods {
 					if &x.excs == fs.fields {
@@ -877,22 +877,22 @@ func init() {
 		}
 		return e.rec("remove-optional-"+fs.what, false, fs.decl, 0, fs.decl)
 	})
-	add("field-add", func(e *editor) bool {
+	add("field-add", func(e *a18Editor) bool {
 		fs := e.pickFieldList("struct union exception args", nil)
 		if fs == nil {
 			return false
 		}
 		mod := "rrdo"[e.r.Intn(4)]
-		f := &gField{id: freshID(*fs.fields, e.r, e.r.Chance(40)), mod: mod, name: e.g.fieldName(fieldNames(*fs.fields)), ty: e.g.ty(e.nw, 1, -1), dflt: "-"}
+		f := &a18GField{id: a18FreshID(*fs.fields, e.r, e.r.Chance(40)), mod: mod, name: e.g.fieldName(a18FieldNames(*fs.fields)), ty: e.g.ty(e.nw, 1, -1), dflt: "-"}
 		at := e.r.Intn(len(*fs.fields) + 1)
-		*fs.fields = append((*fs.fields)[:at:at], append([]*gField{f}, (*fs.fields)[at:]...)...)
+		*fs.fields = append((*fs.fields)[:at:at], append([]*a18GField{f}, (*fs.fields)[at:]...)...)
 		if mod == 'r' && fs.what != "union" {
 			return e.rec("add-required-"+fs.what, true, fs.decl, 0, fs.decl)
 		}
 		return e.rec("add-"+map[byte]string{'r': "required(neutralised)", 'd': "default", 'o': "optional"}[mod]+"-"+fs.what, false, fs.decl, 0, fs.decl)
 	})
-	add("throws-add", func(e *editor) bool {
-		ms := e.pickMethod(func(m *gMethod) bool { return !m.oneway })
+	add("throws-add", func(e *a18Editor) bool {
+		ms := e.pickMethod(func(m *a18GMethod) bool { return !m.oneway })
 		if ms == nil {
 			return false
 		}
@@ -902,8 +902,8 @@ func init() {
 		}
 		m := ms.m
 		wasEmpty := len(m.excs) == 0
-		x[0].id = freshID(m.excs, e.r, false)
-		x[0].name = e.g.fieldName(fieldNames(m.excs))
+		x[0].id = a18FreshID(m.excs, e.r, false)
+		x[0].name = e.g.fieldName(a18FieldNames(m.excs))
 		m.excs = append(m.excs, x[0])
 		k := "method:" + ms.s.name + "." + m.name
 		if m.ret == nil && wasEmpty {
@@ -911,8 +911,8 @@ func init() {
 		}
 		return e.rec("throws-add", false, k, 0, k)
 	})
-	add("enum-value-remove", func(e *editor) bool {
-		en := e.pickEnum(func(x *gEnum) bool { return len(x.vals) > 0 })
+	add("enum-value-remove", func(e *a18Editor) bool {
+		en := e.pickEnum(func(x *a18GEnum) bool { return len(x.vals) > 0 })
 		if en == nil {
 			return false
 		}
@@ -920,7 +920,7 @@ func init() {
 		en.vals = append(en.vals[:i:i], en.vals[i+1:]...)
 		return e.rec("enum-value-remove", true, "enum:"+en.name, 0, "enum:"+en.name)
 	})
-	add("scope-remove", func(e *editor) bool {
+	add("scope-remove", func(e *a18Editor) bool {
 		s := e.pickScope(nil)
 		if s == nil {
 			return false
@@ -932,8 +932,8 @@ func init() {
 		}
 		return e.rec("scope-remove", true, "scope:"+s.name, 0, "scope:"+s.name)
 	})
-	add("op-remove", func(e *editor) bool {
-		s := e.pickScope(func(x *gScope) bool { return len(x.ops) > 0 })
+	add("op-remove", func(e *a18Editor) bool {
+		s := e.pickScope(func(x *a18GScope) bool { return len(x.ops) > 0 })
 		if s == nil {
 			return false
 		}
@@ -941,14 +941,14 @@ func init() {
 		s.ops = append(s.ops[:i:i], s.ops[i+1:]...)
 		return e.rec("op-remove", true, "scope:"+s.name, 0, "scope:"+s.name)
 	})
-	add("prefix-change", func(e *editor) bool {
+	add("prefix-change", func(e *a18Editor) bool {
 		s := e.pickScope(nil)
 		if s == nil {
 			return false
 		}
 		n := len(s.prefix)
-		lit := gPTok{false, litWords[e.r.Intn(len(litWords))]}
-		vr := gPTok{true, e.g.fresh("vr")}
+		lit := a18GPTok{false, a18LitWords[e.r.Intn(len(a18LitWords))]}
+		vr := a18GPTok{true, e.g.fresh("vr")}
 		kind := ""
 		switch c := e.r.Intn(6); {
 		case c == 0 || n == 0:
@@ -957,7 +957,7 @@ func init() {
 			if e.r.Bool() {
 				t = vr
 			}
-			s.prefix = append(s.prefix[:at:at], append([]gPTok{t}, s.prefix[at:]...)...)
+			s.prefix = append(s.prefix[:at:at], append([]a18GPTok{t}, s.prefix[at:]...)...)
 			kind = "prefix-add-token"
 		case c == 1:
 			at := e.r.Intn(n)
@@ -966,7 +966,7 @@ func init() {
 		case c == 2:
 			at := e.r.Intn(n)
 			if s.prefix[at].isVar {
-				s.prefix[at] = gPTok{false, s.prefix[at].s} // {user} -> user
+				s.prefix[at] = a18GPTok{false, s.prefix[at].s} // {user} -> user
 				kind = "prefix-var-to-literal"
 			} else {
 				s.prefix[at] = vr
@@ -974,10 +974,10 @@ func init() {
 			}
 		case c == 3 && n >= 2:
 			i, j := 0, 0
-			for try := 0; try < 8 && (i == j || tokSame(s.prefix[i], s.prefix[j])); try++ {
+			for try := 0; try < 8 && (i == j || a18TokSame(s.prefix[i], s.prefix[j])); try++ {
 				i, j = e.r.Intn(n), e.r.Intn(n)
 			}
-			if i == j || tokSame(s.prefix[i], s.prefix[j]) {
+			if i == j || a18TokSame(s.prefix[i], s.prefix[j]) {
 				return false
 			}
 			s.prefix[i], s.prefix[j] = s.prefix[j], s.prefix[i]
@@ -993,13 +993,13 @@ func init() {
 				return false
 			}
 			at := lits[e.r.Intn(len(lits))]
-			s.prefix[at] = gPTok{false, s.prefix[at].s + "X"}
+			s.prefix[at] = a18GPTok{false, s.prefix[at].s + "X"}
 			kind = "prefix-literal-changed"
 		}
 		return e.rec(kind, true, "scope:"+s.name, 0, "scope:"+s.name)
 	})
-	add("oneway-flip", func(e *editor) bool {
-		ms := e.pickMethod(func(m *gMethod) bool { return m.ret == nil && len(m.excs) == 0 })
+	add("oneway-flip", func(e *a18Editor) bool {
+		ms := e.pickMethod(func(m *a18GMethod) bool { return m.ret == nil && len(m.excs) == 0 })
 		if ms == nil {
 			return false
 		}
@@ -1007,8 +1007,8 @@ func init() {
 		k := "method:" + ms.s.name + "." + ms.m.name
 		return e.rec("oneway-flip", true, k, 0, k)
 	})
-	add("extends-change", func(e *editor) bool {
-		s := e.pickService(func(s *gService) bool { return s.ext != "" })
+	add("extends-change", func(e *a18Editor) bool {
+		s := e.pickService(func(s *a18GService) bool { return s.ext != "" })
 		if s == nil {
 			return false
 		}
@@ -1029,7 +1029,7 @@ func init() {
 		s.ext = c[e.r.Intn(len(c))]
 		return e.rec("extends-changed", true, k, 0, k)
 	})
-	add("method-remove", func(e *editor) bool {
+	add("method-remove", func(e *a18Editor) bool {
 		ms := e.pickMethod(nil)
 		if ms == nil {
 			return false
@@ -1042,8 +1042,8 @@ func init() {
 		k := "method:" + ms.s.name + "." + ms.m.name
 		return e.rec("method-remove", true, k, 0, k)
 	})
-	add("service-remove", func(e *editor) bool {
-		s := e.pickService(func(s *gService) bool {
+	add("service-remove", func(e *a18Editor) bool {
+		s := e.pickService(func(s *a18GService) bool {
 			for _, o := range e.nw.services {
 				if o.ext == s.name {
 					return false
@@ -1062,9 +1062,9 @@ func init() {
 		return e.rec("service-remove", true, "svc:"+s.name, 0, "svc:"+s.name)
 	})
 
-	add("kind-change", func(e *editor) bool {
+	add("kind-change", func(e *a18Editor) bool {
 		// struct <-> exception <-> union under the same name: the old declaration is gone from its kind
-		s := e.pickStruct(func(s *gStruct) bool {
+		s := e.pickStruct(func(s *a18GStruct) bool {
 			if s.kind != 'x' {
 				return true
 			}
@@ -1084,8 +1084,8 @@ func init() {
 		}
 		return e.rec("kind-change-"+string(from)+string(s.kind), true, "struct:"+s.name, 0, "struct:"+s.name)
 	})
-	add("ret-void-flip", func(e *editor) bool {
-		ms := e.pickMethod(func(m *gMethod) bool { return !m.oneway })
+	add("ret-void-flip", func(e *a18Editor) bool {
+		ms := e.pickMethod(func(m *a18GMethod) bool { return !m.oneway })
 		if ms == nil {
 			return false
 		}
@@ -1097,13 +1097,13 @@ func init() {
 		ms.m.ret = nil
 		return e.rec("ret-type-to-void", true, k, 0, k)
 	})
-	add("field-renumber", func(e *editor) bool {
-		fs := e.pickFieldList("struct union exception args", func(s fieldSite) bool { return len(*s.fields) > 0 })
+	add("field-renumber", func(e *a18Editor) bool {
+		fs := e.pickFieldList("struct union exception args", func(s a18FieldSite) bool { return len(*s.fields) > 0 })
 		if fs == nil {
 			return false
 		}
 		f := (*fs.fields)[e.r.Intn(len(*fs.fields))]
-		f.id = freshID(*fs.fields, e.r, e.r.Bool())
+		f.id = a18FreshID(*fs.fields, e.r, e.r.Bool())
 		// keyed by id: the old id is removed (an error unless it was optional), the new id is an added field
 		if fs.what != "union" && f.mod != 'o' {
 			return e.rec("renumber-nonoptional-"+fs.what, true, fs.decl, 0, fs.decl)
@@ -1112,19 +1112,19 @@ func init() {
 	})
 
 	// ----- compatible -----
-	add("alias-swap", func(e *editor) bool { return e.aliasSwap() })
-	add("alias-swap", func(e *editor) bool { return e.aliasSwap() })
-	add("field-rename", func(e *editor) bool {
-		fs := e.pickFieldList("struct union exception args throws", func(s fieldSite) bool { return len(*s.fields) > 0 })
+	add("alias-swap", func(e *a18Editor) bool { return e.aliasSwap() })
+	add("alias-swap", func(e *a18Editor) bool { return e.aliasSwap() })
+	add("field-rename", func(e *a18Editor) bool {
+		fs := e.pickFieldList("struct union exception args throws", func(s a18FieldSite) bool { return len(*s.fields) > 0 })
 		if fs == nil {
 			return false
 		}
 		f := (*fs.fields)[e.r.Intn(len(*fs.fields))]
-		f.name = e.g.fieldName(fieldNames(*fs.fields))
+		f.name = e.g.fieldName(a18FieldNames(*fs.fields))
 		return e.rec("rename-field-"+fs.what, false, fs.decl, 0, fs.decl)
 	})
-	add("field-optional-default", func(e *editor) bool {
-		fs := e.pickFieldList("struct exception args", func(s fieldSite) bool {
+	add("field-optional-default", func(e *a18Editor) bool {
+		fs := e.pickFieldList("struct exception args", func(s a18FieldSite) bool {
 			for _, f := range *s.fields {
 				if f.mod != 'r' {
 					return true
@@ -1147,10 +1147,10 @@ func init() {
 		}
 		return e.rec("optional<->default-"+fs.what, false, fs.decl, 0, fs.decl)
 	})
-	add("field-default-value", func(e *editor) bool {
-		fs := e.pickFieldList("struct exception args", func(s fieldSite) bool {
+	add("field-default-value", func(e *a18Editor) bool {
+		fs := e.pickFieldList("struct exception args", func(s a18FieldSite) bool {
 			for _, f := range *s.fields {
-				if f.ty.kind == tyBase && (f.ty.name == "i32" || f.ty.name == "i64") {
+				if f.ty.kind == a18TyBase && (f.ty.name == "i32" || f.ty.name == "i64") {
 					return true
 				}
 			}
@@ -1160,7 +1160,7 @@ func init() {
 			return false
 		}
 		for _, f := range *fs.fields {
-			if f.ty.kind == tyBase && (f.ty.name == "i32" || f.ty.name == "i64") {
+			if f.ty.kind == a18TyBase && (f.ty.name == "i32" || f.ty.name == "i64") {
 				if f.dflt != "-" && e.r.Chance(30) {
 					f.dflt = "-"
 				} else {
@@ -1171,8 +1171,8 @@ func init() {
 		}
 		return e.rec("default-value-"+fs.what, false, fs.decl, 0, fs.decl)
 	})
-	add("field-reorder", func(e *editor) bool {
-		fs := e.pickFieldList("struct union exception args throws", func(s fieldSite) bool { return len(*s.fields) > 1 })
+	add("field-reorder", func(e *a18Editor) bool {
+		fs := e.pickFieldList("struct union exception args throws", func(s a18FieldSite) bool { return len(*s.fields) > 1 })
 		if fs == nil {
 			return false
 		}
@@ -1183,15 +1183,15 @@ func init() {
 		}
 		return e.rec("reorder-fields-"+fs.what, false, fs.decl, 0, fs.decl)
 	})
-	add("enum-value-rename", func(e *editor) bool {
-		en := e.pickEnum(func(x *gEnum) bool { return len(x.vals) > 0 })
+	add("enum-value-rename", func(e *a18Editor) bool {
+		en := e.pickEnum(func(x *a18GEnum) bool { return len(x.vals) > 0 })
 		if en == nil {
 			return false
 		}
 		en.vals[e.r.Intn(len(en.vals))].name = e.g.fresh("VAL")
 		return e.rec("enum-value-rename", false, "enum:"+en.name, 0, "enum:"+en.name)
 	})
-	add("enum-value-add", func(e *editor) bool {
+	add("enum-value-add", func(e *a18Editor) bool {
 		en := e.pickEnum(nil)
 		if en == nil {
 			return false
@@ -1202,11 +1202,11 @@ func init() {
 				mx = v.num + 1
 			}
 		}
-		en.vals = append(en.vals, gEV{e.g.fresh("VAL"), mx + e.r.Intn(3)})
+		en.vals = append(en.vals, a18GEV{e.g.fresh("VAL"), mx + e.r.Intn(3)})
 		return e.rec("enum-value-add", false, "enum:"+en.name, 0, "enum:"+en.name)
 	})
-	add("enum-remove-unreferenced", func(e *editor) bool {
-		en := e.pickEnum(func(x *gEnum) bool { return len(e.referenced(x.name)) == 0 })
+	add("enum-remove-unreferenced", func(e *a18Editor) bool {
+		en := e.pickEnum(func(x *a18GEnum) bool { return len(e.referenced(x.name)) == 0 })
 		if en == nil {
 			return false
 		}
@@ -1217,8 +1217,8 @@ func init() {
 		}
 		return e.rec("enum-remove-unreferenced", false, "enum:"+en.name, 0, "enum:"+en.name)
 	})
-	add("prefix-var-rename", func(e *editor) bool {
-		s := e.pickScope(func(x *gScope) bool {
+	add("prefix-var-rename", func(e *a18Editor) bool {
+		s := e.pickScope(func(x *a18GScope) bool {
 			for _, t := range x.prefix {
 				if t.isVar {
 					return true
@@ -1237,15 +1237,15 @@ func init() {
 		}
 		return e.rec("prefix-var-rename", false, "scope:"+s.name, 0, "scope:"+s.name)
 	})
-	add("op-add", func(e *editor) bool {
+	add("op-add", func(e *a18Editor) bool {
 		s := e.pickScope(nil)
 		if s == nil {
 			return false
 		}
-		s.ops = append(s.ops, &gOp{e.g.fresh("Op"), e.g.ty(e.nw, 1, -1)})
+		s.ops = append(s.ops, &a18GOp{e.g.fresh("Op"), e.g.ty(e.nw, 1, -1)})
 		return e.rec("op-add", false, "scope:"+s.name, 0, "scope:"+s.name)
 	})
-	add("method-add", func(e *editor) bool {
+	add("method-add", func(e *a18Editor) bool {
 		s := e.pickService(nil)
 		if s == nil {
 			return false
@@ -1253,8 +1253,8 @@ func init() {
 		s.methods = append(s.methods, e.g.method(e.nw, e.g.fresh("me")))
 		return e.rec("method-add", false, "svc:"+s.name, 0)
 	})
-	add("extends-add", func(e *editor) bool {
-		s := e.pickService(func(s *gService) bool { return s.ext == "" && e.nw.services[0] != s })
+	add("extends-add", func(e *a18Editor) bool {
+		s := e.pickService(func(s *a18GService) bool { return s.ext == "" && e.nw.services[0] != s })
 		if s == nil {
 			return false
 		}
@@ -1271,33 +1271,33 @@ func init() {
 		s.ext = c[e.r.Intn(len(c))]
 		return e.rec("extends-add", false, "svc:"+s.name, 0, "svc:"+s.name)
 	})
-	add("decl-add", func(e *editor) bool {
+	add("decl-add", func(e *a18Editor) bool {
 		switch e.r.Intn(5) {
 		case 0:
-			s := &gStruct{kind: "sux"[e.r.Intn(3)], name: e.g.fresh("St")}
+			s := &a18GStruct{kind: "sux"[e.r.Intn(3)], name: e.g.fresh("St")}
 			s.fields = e.g.fields(e.nw, e.r.Intn(4), "ddroo", false)
 			e.nw.structs = append(e.nw.structs, s)
 			return e.rec("add-struct", false, "struct:"+s.name, 0, "struct:"+s.name)
 		case 1:
-			en := &gEnum{name: e.g.fresh("En"), vals: []gEV{{e.g.fresh("VAL"), 0}}}
+			en := &a18GEnum{name: e.g.fresh("En"), vals: []a18GEV{{e.g.fresh("VAL"), 0}}}
 			e.nw.enums = append(e.nw.enums, en)
 			return e.rec("add-enum", false, "enum:"+en.name, 0, "enum:"+en.name)
 		case 2:
-			s := &gService{name: e.g.fresh("Sv")}
+			s := &a18GService{name: e.g.fresh("Sv")}
 			s.methods = append(s.methods, e.g.method(e.nw, e.g.fresh("me")))
 			e.nw.services = append(e.nw.services, s)
 			return e.rec("add-service", false, "svc:"+s.name, 0, "svc:"+s.name)
 		case 3:
-			s := &gScope{name: e.g.fresh("Sc"), prefix: e.g.prefix()}
+			s := &a18GScope{name: e.g.fresh("Sc"), prefix: e.g.prefix()}
 			e.nw.scopes = append(e.nw.scopes, s)
 			return e.rec("add-scope", false, "scope:"+s.name, 0, "scope:"+s.name)
 		default:
-			t := &gTypedef{e.g.fresh("Td"), e.g.ty(e.nw, 1, -1)}
+			t := &a18GTypedef{e.g.fresh("Td"), e.g.ty(e.nw, 1, -1)}
 			e.nw.typedefs = append(e.nw.typedefs, t)
 			return e.rec("add-typedef", false, "typedef:"+t.name, 0, "typedef:"+t.name)
 		}
 	})
-	add("decl-reorder", func(e *editor) bool {
+	add("decl-reorder", func(e *a18Editor) bool {
 		n := e.nw
 		if len(n.structs) > 1 {
 			i, j := e.r.Intn(len(n.structs)), e.r.Intn(len(n.structs))
@@ -1313,7 +1313,7 @@ func init() {
 		}
 		return e.rec("reorder-declarations", false, "-", 0)
 	})
-	add("namespace-change", func(e *editor) bool {
+	add("namespace-change", func(e *a18Editor) bool {
 		n := e.nw
 		switch c := e.r.Intn(3); {
 		case c == 0 || len(n.nss) == 0:
@@ -1322,7 +1322,7 @@ func init() {
 					return false
 				}
 			}
-			n.nss = append(n.nss, &gNS{"cpp", "added"})
+			n.nss = append(n.nss, &a18GNS{"cpp", "added"})
 			return e.rec("namespace-add", false, "-", 0)
 		case c == 1:
 			n.nss[0].value = n.nss[0].value + "x"
@@ -1332,16 +1332,16 @@ func init() {
 			return e.rec("namespace-remove", false, "-", 0)
 		}
 	})
-	add("const-change", func(e *editor) bool {
+	add("const-change", func(e *a18Editor) bool {
 		n := e.nw
 		switch c := e.r.Intn(4); {
 		case c == 0 || len(n.consts) == 0:
-			n.consts = append(n.consts, &gConst{e.g.fresh("CK"), &gTy{kind: tyBase, name: "i64"}, "7"})
+			n.consts = append(n.consts, &a18GConst{e.g.fresh("CK"), &a18GTy{kind: a18TyBase, name: "i64"}, "7"})
 			return e.rec("const-add", false, "-", 0)
 		case c == 1:
 			k := n.consts[e.r.Intn(len(n.consts))]
 			if k.ty.name == "string" {
-				k.value = strTok("changed")
+				k.value = a18StrTok("changed")
 			} else {
 				k.value = "12345"
 			}
@@ -1352,9 +1352,9 @@ func init() {
 				return false
 			}
 			if k.ty.name == "i32" {
-				k.ty = &gTy{kind: tyBase, name: "i64"}
+				k.ty = &a18GTy{kind: a18TyBase, name: "i64"}
 			} else {
-				k.ty = &gTy{kind: tyBase, name: "i32"}
+				k.ty = &a18GTy{kind: a18TyBase, name: "i32"}
 			}
 			return e.rec("const-type-change", false, "-", 0)
 		default:
@@ -1365,7 +1365,7 @@ func init() {
 	})
 }
 
-func tokSame(a, b gPTok) bool {
+func a18TokSame(a, b a18GPTok) bool {
 	if a.isVar != b.isVar {
 		return false
 	}
@@ -1375,21 +1375,21 @@ func tokSame(a, b gPTok) bool {
 // ---------- suite ----------
 
 type c18Case struct {
-	old, nw  *gProg
-	log      []applied
+	old, nw  *a18GProg
+	log      []a18Applied
 	touched  map[string]bool
 	breaking int
 }
 
-func genCase(r *Rng) *c18Case {
-	old := genProg(r)
-	g := &gen{r: r, p: old, counter: 1000}
-	e := &editor{g: g, r: r, old: old, nw: old.clone(), touched: map[string]bool{}}
+func a18GenCase(r *Rng) *c18Case {
+	old := a18GenProg(r)
+	g := &a18Gen{r: r, p: old, counter: 1000}
+	e := &a18Editor{g: g, r: r, old: old, nw: old.clone(), touched: map[string]bool{}}
 	g.p = e.nw
 	k := r.Intn(4)
 	mode := r.Intn(3) // 0: any, 1: compatible only, 2: any
-	for applied, tries := 0, 0; applied < k && tries < 60; tries++ {
-		ed := edits[r.Intn(len(edits))]
+	for a18Applied, tries := 0, 0; a18Applied < k && tries < 60; tries++ {
+		ed := a18Edits[r.Intn(len(a18Edits))]
 		before := len(e.log)
 		snapshot := e.nw.clone()
 		if !ed.f(e) {
@@ -1402,7 +1402,7 @@ func genCase(r *Rng) *c18Case {
 			e.log = e.log[:before]
 			continue
 		}
-		applied++
+		a18Applied++
 	}
 	c := &c18Case{old: old, nw: e.nw, log: e.log, touched: e.touched}
 	for _, a := range e.log {
@@ -1413,15 +1413,15 @@ func genCase(r *Rng) *c18Case {
 	return c
 }
 
-func expectOf(breaking int) string {
+func a18ExpectOf(breaking int) string {
 	if breaking > 0 {
 		return "fail"
 	}
 	return "pass"
 }
 
-// oracleHolds: the property on a real outcome.
-func oracleHolds(expect string, a auditOut) bool {
+// a18OracleHolds: the property on a real outcome.
+func a18OracleHolds(expect string, a a18AuditOut) bool {
 	if a.parseErr != "" {
 		return true // not an audit outcome; reported as a correspondence mismatch instead
 	}
@@ -1434,23 +1434,23 @@ func oracleHolds(expect string, a auditOut) bool {
 	return true
 }
 
-func audLine(oldP, newP *gProg, expect string) string {
+func a18AudLine(oldP, newP *a18GProg, expect string) string {
 	return "aud - " + oldP.tok() + " " + newP.tok() + " " + expect
 }
 
-// shrinkCase: drop declarations no edit touched while the same oracle failure persists.
-func shrinkCase(c *c18Case, expect string) (oldP, newP *gProg) {
+// a18ShrinkCase: drop declarations no a18Edit touched while the same oracle failure persists.
+func a18ShrinkCase(c *c18Case, expect string) (oldP, newP *a18GProg) {
 	oldP, newP = c.old.clone(), c.nw.clone()
-	stillFails := func(o, n *gProg) bool {
-		a := realAudit(o.idl(), n.idl())
-		return a.parseErr == "" && !oracleHolds(expect, a)
+	stillFails := func(o, n *a18GProg) bool {
+		a := a18RealAudit(o.idl(), n.idl())
+		return a.parseErr == "" && !a18OracleHolds(expect, a)
 	}
 	if !stillFails(oldP, newP) {
 		return
 	}
 	type rm struct {
 		key string
-		do  func(p *gProg)
+		do  func(p *a18GProg)
 	}
 	budget := 80
 	for changed := true; changed && budget > 0; {
@@ -1458,7 +1458,7 @@ func shrinkCase(c *c18Case, expect string) (oldP, newP *gProg) {
 		var cands []rm
 		for _, s := range oldP.structs {
 			name := s.name
-			cands = append(cands, rm{"struct:" + name, func(p *gProg) {
+			cands = append(cands, rm{"struct:" + name, func(p *a18GProg) {
 				for i, x := range p.structs {
 					if x.name == name {
 						p.structs = append(p.structs[:i:i], p.structs[i+1:]...)
@@ -1469,7 +1469,7 @@ func shrinkCase(c *c18Case, expect string) (oldP, newP *gProg) {
 		}
 		for _, s := range oldP.enums {
 			name := s.name
-			cands = append(cands, rm{"enum:" + name, func(p *gProg) {
+			cands = append(cands, rm{"enum:" + name, func(p *a18GProg) {
 				for i, x := range p.enums {
 					if x.name == name {
 						p.enums = append(p.enums[:i:i], p.enums[i+1:]...)
@@ -1480,7 +1480,7 @@ func shrinkCase(c *c18Case, expect string) (oldP, newP *gProg) {
 		}
 		for _, s := range oldP.typedefs {
 			name := s.name
-			cands = append(cands, rm{"typedef:" + name, func(p *gProg) {
+			cands = append(cands, rm{"typedef:" + name, func(p *a18GProg) {
 				for i, x := range p.typedefs {
 					if x.name == name {
 						p.typedefs = append(p.typedefs[:i:i], p.typedefs[i+1:]...)
@@ -1491,7 +1491,7 @@ func shrinkCase(c *c18Case, expect string) (oldP, newP *gProg) {
 		}
 		for _, s := range oldP.scopes {
 			name := s.name
-			cands = append(cands, rm{"scope:" + name, func(p *gProg) {
+			cands = append(cands, rm{"scope:" + name, func(p *a18GProg) {
 				for i, x := range p.scopes {
 					if x.name == name {
 						p.scopes = append(p.scopes[:i:i], p.scopes[i+1:]...)
@@ -1509,7 +1509,7 @@ func shrinkCase(c *c18Case, expect string) (oldP, newP *gProg) {
 					untouchedMethods = false
 					continue
 				}
-				cands = append(cands, rm{"method:" + name + "." + mname, func(p *gProg) {
+				cands = append(cands, rm{"method:" + name + "." + mname, func(p *a18GProg) {
 					for _, sv := range p.services {
 						if sv.name == name {
 							for i, x := range sv.methods {
@@ -1523,7 +1523,7 @@ func shrinkCase(c *c18Case, expect string) (oldP, newP *gProg) {
 				}})
 			}
 			if untouchedMethods {
-				cands = append(cands, rm{"svc:" + name, func(p *gProg) {
+				cands = append(cands, rm{"svc:" + name, func(p *a18GProg) {
 					for i, x := range p.services {
 						if x.name == name {
 							p.services = append(p.services[:i:i], p.services[i+1:]...)
@@ -1533,12 +1533,12 @@ func shrinkCase(c *c18Case, expect string) (oldP, newP *gProg) {
 				}})
 			}
 		}
-		cands = append(cands, rm{"nsconst:", func(p *gProg) { p.nss, p.consts = nil, nil }})
+		cands = append(cands, rm{"nsconst:", func(p *a18GProg) { p.nss, p.consts = nil, nil }})
 		for _, cd := range cands {
 			if c.touched[cd.key] || budget <= 0 {
 				continue
 			}
-			if cd.key == "nsconst:" && (len(oldP.nss)+len(oldP.consts)+len(newP.nss)+len(newP.consts) == 0 || hasNsConstEdit(c)) {
+			if cd.key == "nsconst:" && (len(oldP.nss)+len(oldP.consts)+len(newP.nss)+len(newP.consts) == 0 || a18HasNsConstEdit(c)) {
 				continue
 			}
 			o2, n2 := oldP.clone(), newP.clone()
@@ -1554,7 +1554,7 @@ func shrinkCase(c *c18Case, expect string) (oldP, newP *gProg) {
 	return
 }
 
-func hasNsConstEdit(c *c18Case) bool {
+func a18HasNsConstEdit(c *c18Case) bool {
 	for _, a := range c.log {
 		if strings.HasPrefix(a.kind, "namespace") || strings.HasPrefix(a.kind, "const") {
 			return true
@@ -1567,12 +1567,13 @@ func runC18(r *Rng, n int) {
 	// common.go's stream for seed k+1 is the stream for seed k shifted by one draw:
 	// restart from a mixed output so that different seeds explore different programs
 	r = &Rng{s: r.U64() ^ 0xC18C18C18}
+	c18KnownWitness()
 	for i := 0; i < n; i++ {
-		c := genCase(r)
-		expect := expectOf(c.breaking)
-		a := realAudit(c.old.idl(), c.nw.idl())
+		c := a18GenCase(r)
+		expect := a18ExpectOf(c.breaking)
+		a := a18RealAudit(c.old.idl(), c.nw.idl())
 		Stat("evaluations")
-		Stat(fmt.Sprintf("edits=%d", len(c.log)))
+		Stat(fmt.Sprintf("a18Edits=%d", len(c.log)))
 		Stat("expect-" + expect)
 		maxDepth := 0
 		for _, ed := range c.log {
@@ -1580,10 +1581,10 @@ func runC18(r *Rng, n int) {
 			if ed.breaking {
 				cl = "breaking"
 			}
-			Stat("edit:" + cl + ":" + ed.kind)
+			Stat("a18Edit:" + cl + ":" + ed.kind)
 			Stat("site:" + ed.site[:strings.IndexByte(ed.site+":", ':')])
 			if strings.HasPrefix(ed.kind, "retype") || strings.HasPrefix(ed.kind, "alias") || strings.HasPrefix(ed.kind, "typedef-body") {
-				Stat(fmt.Sprintf("type-edit-depth=%d", ed.depth))
+				Stat(fmt.Sprintf("type-a18Edit-depth=%d", ed.depth))
 			}
 			if ed.depth > maxDepth {
 				maxDepth = ed.depth
@@ -1591,7 +1592,7 @@ func runC18(r *Rng, n int) {
 		}
 		if a.parseErr != "" {
 			Stat("parse-error")
-			Case(audLine(c.old, c.nw, expect), "parse-error "+a.parseErr)
+			Case(a18AudLine(c.old, c.nw, expect), "parse-error "+a.parseErr)
 			continue
 		}
 		if a.failed {
@@ -1603,23 +1604,23 @@ func runC18(r *Rng, n int) {
 			Stat("finding:" + k)
 		}
 		StatN("decls", len(c.old.structs)+len(c.old.enums)+len(c.old.typedefs)+len(c.old.services)+len(c.old.scopes))
-		line := audLine(a.oldP, a.newP, expect)
+		line := a18AudLine(a.oldP, a.newP, expect)
 		Case(line, a.canonical())
 		if i < 3 {
-			Sample(map[string]interface{}{"edits": fmt.Sprint(c.log), "expect": expect, "real": a.canonical()})
+			Sample(map[string]interface{}{"a18Edits": fmt.Sprint(c.log), "expect": expect, "real": a.canonical()})
 		}
-		if !oracleHolds(expect, a) {
-			so, sn := shrinkCase(c, expect)
-			sa := realAudit(so.idl(), sn.idl())
+		if !a18OracleHolds(expect, a) {
+			so, sn := a18ShrinkCase(c, expect)
+			sa := a18RealAudit(so.idl(), sn.idl())
 			sline := line
-			if sa.parseErr == "" && !oracleHolds(expect, sa) {
-				sline = audLine(sa.oldP, sa.newP, expect)
+			if sa.parseErr == "" && !a18OracleHolds(expect, sa) {
+				sline = a18AudLine(sa.oldP, sa.newP, expect)
 			}
-			what := "audit passed although a breaking edit was applied"
+			what := "audit passed although a breaking a18Edit was a18Applied"
 			if expect == "pass" {
-				what = "audit failed although only compatible edits were applied"
+				what = "audit failed although only compatible a18Edits were a18Applied"
 			}
-			OracleFail(what, map[string]interface{}{"op": "aud", "line": sline, "edits": fmt.Sprint(c.log), "expect": expect,
+			OracleFail(what, map[string]interface{}{"op": "aud", "line": sline, "a18Edits": fmt.Sprint(c.log), "expect": expect,
 				"real": sa.canonical(), "errors": sa.errors, "old_idl": so.idl(), "new_idl": sn.idl()})
 		}
 	}
@@ -1631,8 +1632,8 @@ func init() {
 		if len(args) < 3 {
 			return "bad-args", true
 		}
-		o, err1 := progOfTok(args[1])
-		n, err2 := progOfTok(args[2])
+		o, err1 := a18ProgOfTok(args[1])
+		n, err2 := a18ProgOfTok(args[2])
 		if err1 != nil || err2 != nil {
 			return "bad-args", true
 		}
@@ -1640,7 +1641,7 @@ func init() {
 		if len(args) >= 4 {
 			expect = args[3]
 		}
-		a := realAudit(o.idl(), n.idl())
+		a := a18RealAudit(o.idl(), n.idl())
 		if a.parseErr != "" {
 			return "parse-error " + a.parseErr, true
 		}
@@ -1648,6 +1649,72 @@ func init() {
 		if a.oldP.tok() != args[1] || a.newP.tok() != args[2] {
 			return "not-canonical " + a.canonical(), true
 		}
-		return a.canonical(), oracleHolds(expect, a)
+		return a.canonical(), a18OracleHolds(expect, a)
+	}
+}
+
+// ---------- known finding (shared with C02, DESIGN §8 #10) ----------
+//
+// A typedef chain whose second hop lives in an *included* file: UnderlyingType resolves
+// `base.userId` in base (→ `id`) and then looks `id` up in the *including* file, where it is
+// unknown, so both sides "resolve" to the name `id` and the audit misses that `id` changed from
+// i64 to i32 in the included file. With one hop (`base.key`) the same change is reported.
+// The generator excludes the class: generated programs are single files (no includes).
+// Copies of the witness: /verif/known/c18_include_typedef/{old,new}/{main,base}.frugal.
+
+const c18KnownID = "include-typedef-second-hop"
+
+var c18WitnessMain = "include \"base.frugal\"\nstruct M {\n  1: base.userId viaTwoHops,\n}\nstruct N {\n  1: base.key viaOneHop,\n}\n"
+var c18WitnessBaseOld = "typedef i64 id\ntypedef id userId\ntypedef i64 key\n"
+var c18WitnessBaseNew = "typedef i32 id\ntypedef id userId\ntypedef i64 key\n"
+var c18WitnessBaseNewOneHop = "typedef i64 id\ntypedef id userId\ntypedef i32 key\n"
+
+// a18AuditDirs audits new/main.frugal against old/main.frugal; returns (failed, error messages, setup error).
+func a18AuditDirs(oldFiles, newFiles map[string]string) (bool, []string, error) {
+	dir, err := os.MkdirTemp("", "verif-c18k-")
+	if err != nil {
+		return false, nil, err
+	}
+	defer os.RemoveAll(dir)
+	for sub, files := range map[string]map[string]string{"old": oldFiles, "new": newFiles} {
+		os.MkdirAll(filepath.Join(dir, sub), 0o755)
+		for name, text := range files {
+			if err := os.WriteFile(filepath.Join(dir, sub, name), []byte(text), 0o644); err != nil {
+				return false, nil, err
+			}
+		}
+	}
+	lg := &a18RecLogger{}
+	var aerr error
+	if o := guard(10e9, func() {
+		aerr = parser.NewAuditorWithLogger(lg).Audit(filepath.Join(dir, "old", "main.frugal"), filepath.Join(dir, "new", "main.frugal"))
+	}); o != "" {
+		return false, nil, fmt.Errorf("audit %s", o)
+	}
+	if aerr != nil && !lg.ErrorsLogged() {
+		return false, nil, aerr
+	}
+	return aerr != nil, lg.errors, nil
+}
+
+// c18KnownWitness replays the witness: Known(...) while the two-hop retype is still missed;
+// the one-hop control must be reported (otherwise the witness itself is broken: oracle failure).
+func c18KnownWitness() {
+	oldF := map[string]string{"main.frugal": c18WitnessMain, "base.frugal": c18WitnessBaseOld}
+	failed, errs, err := a18AuditDirs(oldF, map[string]string{"main.frugal": c18WitnessMain, "base.frugal": c18WitnessBaseNew})
+	ctlFailed, ctlErrs, err2 := a18AuditDirs(oldF, map[string]string{"main.frugal": c18WitnessMain, "base.frugal": c18WitnessBaseNewOneHop})
+	if err != nil || err2 != nil {
+		OracleFail("known-finding witness could not be audited", map[string]interface{}{"err": fmt.Sprint(err, err2)})
+		return
+	}
+	if !ctlFailed || len(ctlErrs) != 1 {
+		OracleFail("audit passed although a field was retyped behind a one-hop typedef of an included file",
+			map[string]interface{}{"errors": ctlErrs, "old_idl": c18WitnessMain + "--- base.frugal\n" + c18WitnessBaseOld, "new_idl": "--- base.frugal\n" + c18WitnessBaseNewOneHop})
+	}
+	if !failed {
+		Known(c18KnownID, "audit passes although M.viaTwoHops changed from i64 to i32: the second typedef hop (base.userId -> id -> i64|i32) is looked up in the including file")
+		Stat("known-witness-still-fails")
+	} else {
+		Stat("known-witness-now-detected:" + strings.Join(errs, "|"))
 	}
 }
